@@ -84,8 +84,9 @@ let chunked_tail (st : crs) =
 
 let run_chunked cap partial err pieces reads =
   let st = ref (crs_init cap partial pieces err) in
+  let fuel = crs_fuel !st in
   let out = run_reads reads (fun n ->
-    match crs_read !st (z_of_int n) with
+    match crs_read_f fuel !st (z_of_int n) with
     | None -> None
     | Some ((r, bs), s') -> st := s'; Some (int_of_z r, bs)) in
   Printf.sprintf "%s %s" out (chunked_tail !st)
@@ -153,8 +154,9 @@ let () =
             | Some (r, None) -> Printf.printf "M rh=%s%s rest=%s\n" (string_of_z r) (fields ()) (string_of_z (total_len ps1))
             | Some (r, Some bs0) ->
               let st = ref bs0 in
+              let fuel = bs_fuel bs0 in
               let out = run_reads reads (fun n ->
-                match bs_read !st (z_of_int n) with
+                match bs_read_f fuel !st (z_of_int n) with
                 | None -> None
                 | Some ((r, o), s') -> st := s'; Some (int_of_z r, o)) in
               Printf.printf "M rh=%s%s %s rest=%s\n" (string_of_z r) (fields ()) out (string_of_z (bs_rest !st))))
